@@ -51,6 +51,9 @@ def cases(ctx):
     rng = ctx.rng
     for name, vs, fs in _closed_meshes():
         yield {"kind": "closed", "name": name, "verts": vs, "faces": fs}
+        # the angle-defect law does not depend on the unit of length
+        for sc in (1e3, 1e-2, 1e-4, 1e-5):
+            yield {"kind": "closed", "name": name, "verts": [[x * sc for x in v] for v in vs], "faces": fs, "scale": sc}
     # exhaustive small scopes
     if ctx.tier == "thorough":
         for f in ALL4:
